@@ -319,6 +319,44 @@ func attributeFlowRule(P *Program, R *Report) {
 			}
 			switch x := ia.X.(type) {
 			case *ssa.MakeSlice:
+			case *ssa.Phi:
+				// a list that starts empty and is filled by appends in a loop (one slot per attribute): the appended values
+				// are the slots' initial contents
+				if !startsEmpty(x) {
+					return
+				}
+				seenV := map[ssa.Value]bool{}
+				var walk func(v ssa.Value)
+				walk = func(v ssa.Value) {
+					if seenV[v] {
+						return
+					}
+					seenV[v] = true
+					switch y := v.(type) {
+					case *ssa.Phi:
+						for _, e := range y.Edges {
+							walk(e)
+						}
+					case *ssa.Call:
+						if isCallTo(y, "builtin:append") {
+							if t, okT := seqTail(callArgs(y)[1], 0, map[ssa.Value]bool{}); okT {
+								for _, e := range t {
+									if e.D == "call:big.NewInt(0)" {
+										n++
+									} else {
+										ok = false
+										notes = append(notes, "slot appended as "+e.D)
+									}
+								}
+							} else {
+								ok = false
+								notes = append(notes, "append not understood")
+							}
+							walk(callArgs(y)[0])
+						}
+					}
+				}
+				walk(x)
 			case *ssa.Call:
 				// slices.Repeat([]*big.Int{zero}, n): every slot starts as the zero constant
 				if !calleeIs(x, "slices.Repeat") {
@@ -632,6 +670,14 @@ func complementBody(P *Program, R *Report, rule, key string, fn *ssa.Function, d
 			rangeOK = true
 		}
 	})
+	// `for i := range numAttributes` (the test sits at the bottom of the loop)
+	for _, b := range fn.Blocks {
+		if l := findLoop(b); l != nil && len(l.Latch) > 0 {
+			if kind, d := loopTrip(l); kind == "count" && d == count {
+				rangeOK = true
+			}
+		}
+	}
 	R.decide(rule, key+":range", "candidates are all indices 0..numAttributes-1", rangeOK && (sizeOK || usesContains), "", P.Pos(fn.Pos()))
 }
 
